@@ -136,6 +136,17 @@ def gen_problem(rng, tier):
     n = h * w
     kmax = max(1, n // 4)
     k = rng.randint(1, min(kmax, 3)) if rng.random() < 0.85 else rng.randint(1, min(n, kmax + 1))
+    return _gen(rng, h, w, k)
+
+
+def extra_program_problems(rng):
+    """Larger boards for the program correspondence only (nothing is enumerated there): one non-square medium board and two
+    with more than 256 cells (a tall and a wide one), regions of 5 to 8 cells on average, grown from random seeds."""
+    from . import _loop
+    return [_gen(rng, h, w, rng.randint(h * w // 8, h * w // 5)) for h, w in _loop.big_shapes(rng)]
+
+
+def _gen(rng, h, w, k):
     blocks = _partition(rng, h, w, k)
     r = rng.random()
     if r < 0.3:
